@@ -2503,3 +2503,278 @@ func ruleTimelineOrder(prop string) ruleFn {
 		}
 	}
 }
+
+// COPY-EMPTY (C01, C09): a copy into a slice of length zero copies nothing.
+func ruleCopyEmpty(prop string) ruleFn {
+	return func(w *World, r *Report) {
+		r.Rule("COPY-EMPTY", "no copy(dst, src) has a destination that was made with length 0 (`make([]T, 0, n)` has capacity, not length): such a copy is a no-op, and what looks like a defensive copy of a location's parents (or of any list) is an empty list — the location silently loses its parents until it is reloaded (expected matches: none; examples in rulint/fixtures/patterns are matched on every run)", 2)
+		match := func(fn *ssa.Function) int { return len(findCopyIntoEmpty(fn)) }
+		selfTest(r, "COPY-EMPTY", match, []string{"CopyIntoEmpty"}, []string{"CopyOK"})
+		n := 0
+		for _, fn := range w.Funcs {
+			if isTestFile(w, fn) || fn.Synthetic != "" {
+				continue
+			}
+			allInstrs(fn, func(in ssa.Instruction) {
+				if _, ok := isBuiltinCall(in, "copy"); ok {
+					n++
+				}
+			})
+			for _, in := range findCopyIntoEmpty(fn) {
+				r.violation("COPY-EMPTY", "fn="+fname(fn), w.PosOf(in), "the destination of this copy has length 0: nothing is copied")
+			}
+		}
+		r.ok("COPY-EMPTY", "scope=all rulio functions", "", fmt.Sprintf("%d copy calls scanned", n))
+	}
+}
+
+// TERM-FILTER (C02, C08): one filter decides which strings are terms.
+func ruleTermFilter(prop string) ruleFn {
+	return func(w *World, r *Report) {
+		r.Rule("TERM-FILTER", "in the term extractor every string that is added to the term set passes the extractor's own filter: each call that adds to the set (StringSet.Add / AddStrings / AddAll) is control-dependent on a test of IsVariable of the added string (variables are not terms) — the same function produces the terms of stored facts and of search patterns, so a string that one container kind lets through unfiltered becomes a pattern term that no stored fact is indexed under (the deleteWith cascade searches with a []string, stored facts carry []interface{})", 1)
+		fn := w.Func("core", "extractTermsAux")
+		isVar := w.Func("core", "IsVariable")
+		n := 0
+		allInstrs(fn, func(in ssa.Instruction) {
+			c := callOf(in)
+			if c == nil {
+				return
+			}
+			f := c.StaticCallee()
+			if f == nil || f.Signature.Recv() == nil || !isNamed(f.Signature.Recv().Type(), modPath+"/core", "StringSet") {
+				return
+			}
+			switch f.Name() {
+			case "Add", "AddStrings", "AddAll":
+			default:
+				return
+			}
+			n++
+			key := "fn=" + fname(fn) + " " + f.Name() + "#" + itoa(n)
+			// the added value(s)
+			var added []ssa.Value
+			for _, a := range c.Args[1:] {
+				added = append(added, a)
+			}
+			guarded := controlDependsOn(fn, in, func(v ssa.Value) bool {
+				call, ok := v.(*ssa.Call)
+				if !ok || call.Common().StaticCallee() != isVar || len(call.Call.Args) == 0 {
+					return false
+				}
+				for _, a := range added {
+					if sameValue(call.Call.Args[0], a) || dependsOn(a, func(x ssa.Value) bool { return x == call.Call.Args[0] }) {
+						return true
+					}
+				}
+				return false
+			})
+			if guarded {
+				r.ok("TERM-FILTER", key, w.PosOf(in), "under the IsVariable test of the added string")
+			} else {
+				r.violation("TERM-FILTER", "fn="+fname(fn), w.PosOf(in), "strings are added to the term set without passing the extractor's filter (variables, over-long strings): patterns and stored facts no longer yield the same terms")
+			}
+		})
+		if n == 0 {
+			r.exempt("TERM-FILTER", "fn="+fname(fn), w.Pos(fn.Pos()), "the extractor does not add to a StringSet directly: shape not recognised, not decided")
+		}
+	}
+}
+
+// STORE-BEFORE-MEM (C06, C10): an add that storage refused leaves no trace in memory.
+func ruleStoreBeforeMem(prop string) ruleFn {
+	return func(w *World, r *Report) {
+		r.Rule("STORE-BEFORE-MEM", "in every State implementation's Add, the fact enters the in-memory fact map (directly or through a callee of the same type) only after Storage.Add succeeded, or — where memory is written first — every path from a failed Storage.Add to the return removes it again: otherwise an add (a rule, an overwrite, a `disabled` flag) whose storage write failed is reported as failed but is live in memory, and is gone again after a reload", 2)
+		a := newLocAnchors(w)
+		for n := range a.stateImp {
+			owner := typeKey(n)
+			ff := stateFactField[owner]
+			add := w.TryMethod(typeRel(n), n.Obj().Name(), "Add")
+			if ff == "" || add == nil {
+				continue
+			}
+			isInsert := func(in ssa.Instruction) bool {
+				mu, ok := in.(*ssa.MapUpdate)
+				return ok && isFieldLoad(mu.Map, owner, ff)
+			}
+			isRemoveMem := func(in ssa.Instruction) bool {
+				c, ok := isBuiltinCall(in, "delete")
+				return ok && len(c.Call.Args) == 2 && isFieldLoad(c.Call.Args[0], owner, ff)
+			}
+			isStoreAdd := func(in ssa.Instruction) bool {
+				d, ok := isStorageMutation(w, in)
+				return ok && strings.HasSuffix(d, "Add")
+			}
+			// transitive summaries over the methods of the type
+			ins, rmv, sto := map[*ssa.Function]bool{}, map[*ssa.Function]bool{}, map[*ssa.Function]bool{}
+			methods := w.MethodsOf(n)
+			for changed := true; changed; {
+				changed = false
+				for _, fn := range methods {
+					allInstrs(fn, func(in ssa.Instruction) {
+						set := func(m map[*ssa.Function]bool) {
+							if !m[fn] {
+								m[fn], changed = true, true
+							}
+						}
+						if isInsert(in) {
+							set(ins)
+						}
+						if isRemoveMem(in) {
+							set(rmv)
+						}
+						if isStoreAdd(in) {
+							set(sto)
+						}
+						if c := callOf(in); c != nil {
+							if f := c.StaticCallee(); f != nil && f != fn {
+								if o2, ok := stateOwnerOf(a, f); ok && o2 == owner {
+									if ins[f] {
+										set(ins)
+									}
+									if rmv[f] {
+										set(rmv)
+									}
+									if sto[f] {
+										set(sto)
+									}
+								}
+							}
+						}
+					})
+				}
+			}
+			via := func(m map[*ssa.Function]bool, direct func(ssa.Instruction) bool) func(ssa.Instruction) bool {
+				return func(in ssa.Instruction) bool {
+					if _, isDefer := in.(*ssa.Defer); isDefer {
+						return false
+					}
+					if direct(in) {
+						return true
+					}
+					if c := callOf(in); c != nil {
+						if f := c.StaticCallee(); f != nil && f != add {
+							if o2, ok := stateOwnerOf(a, f); ok && o2 == owner && m[f] {
+								return true
+							}
+						}
+					}
+					return false
+				}
+			}
+			memIns := via(ins, isInsert)
+			memRem := via(rmv, isRemoveMem)
+			// the storage write of Add itself (not one buried in the callee that also writes memory)
+			var stores []ssa.Instruction
+			allInstrs(add, func(in ssa.Instruction) {
+				if isStoreAdd(in) {
+					stores = append(stores, in)
+				}
+			})
+			key := "fn=" + fname(add)
+			if len(stores) == 0 {
+				r.exempt("STORE-BEFORE-MEM", key, w.Pos(add.Pos()), "Add does not call Storage.Add itself: shape not recognised, not decided")
+				continue
+			}
+			bad := false
+			for _, s := range stores {
+				// can a memory insert precede this storage write?
+				memFirst, _ := reach(add, nil, func(x ssa.Instruction) bool { return x == s }, nil, nil)
+				_ = memFirst
+				pre := false
+				allInstrs(add, func(x ssa.Instruction) {
+					if memIns(x) && reachable(add, x, s) {
+						pre = true
+					}
+				})
+				if !pre {
+					continue
+				}
+				// then every error return after the storage write must pass a removal from memory
+				isErrRet := func(x ssa.Instruction) bool {
+					_, isRet := x.(*ssa.Return)
+					return isRet && !isSuccessReturnPS(x)
+				}
+				if h, _ := reach(add, s, isErrRet, memRem, nil); h != nil {
+					r.violation("STORE-BEFORE-MEM", key, w.PosOf(s), "the fact is in the fact map before Storage.Add is called, and a failed Storage.Add returns (at "+w.PosOf(h)+") without taking it out again: an add that was refused is live in memory")
+					bad = true
+				}
+			}
+			if !bad {
+				r.ok("STORE-BEFORE-MEM", key, w.PosOf(stores[0]), "memory is written after the storage write succeeded (or rolled back)")
+			}
+		}
+	}
+}
+
+// CACHE-EVICT (C12, C17, C11): an entry leaves the location-cache table only through the cache's own protocol.
+var cacheEvictors = map[string]string{
+	"(*sys.CachedLocations).expire": "the cache's expiry: under the table lock, only for an entry that is not in use and whose TTL has passed",
+	"(*sys.CachedLocation).Get":     "clean-up after a failed open",
+}
+
+func ruleCacheEvict(prop string) ruleFn {
+	return func(w *World, r *Report) {
+		r.Rule("CACHE-EVICT", "who-may-delete and how: entries are deleted from the location-cache table only by the cache's expiry and by the clean-up after a failed open (a table of named functions); the clean-up, which runs after the entry lock was released, deletes only under a re-check made while it holds the table lock — the entry has no location (read after the table lock was taken) — because a concurrent request can meanwhile have loaded the location through the same entry.  Evicting an entry that is in use lets the next request load a second instance: two instances of one location, each with its own lock and memory", 2)
+		isLocs := func(v ssa.Value) bool {
+			n, f, _, ok := loadedField(v)
+			return ok && typeKey(n) == "sys.CachedLocations" && f == "locs"
+		}
+		n := 0
+		for _, fn := range w.Funcs {
+			if isTestFile(w, fn) || fn.Synthetic != "" {
+				continue
+			}
+			allInstrs(fn, func(in ssa.Instruction) {
+				c, ok := isBuiltinCall(in, "delete")
+				if !ok || len(c.Call.Args) != 2 || !isLocs(c.Call.Args[0]) {
+					return
+				}
+				n++
+				name := fname(outermost(fn))
+				key := "deleter=" + name
+				if _, ok := cacheEvictors[name]; !ok {
+					r.violation("CACHE-EVICT", key, w.PosOf(in), "this function deletes an entry from the location-cache table outside the cache's protocol: requests that hold the instance keep working on it while later requests load a second one")
+					return
+				}
+				if name != "(*sys.CachedLocation).Get" {
+					r.ok("CACHE-EVICT", key, w.PosOf(in), cacheEvictors[name])
+					return
+				}
+				// the clean-up: guarded by a nil test of the entry's Location that was read after the table lock was taken
+				var tableLock ssa.Instruction
+				allInstrs(fn, func(x ssa.Instruction) {
+					cc := callOf(x)
+					if cc == nil || tableLock != nil {
+						return
+					}
+					if f := cc.StaticCallee(); f != nil && f.Name() == "Lock" && len(cc.Args) > 0 {
+						if fa, ok := cc.Args[0].(*ssa.FieldAddr); ok {
+							if nm, _, _, ok := fieldOf(fa); ok && typeKey(nm) == "sys.CachedLocations" && reachable(fn, x, in) {
+								tableLock = x
+							}
+						}
+					}
+				})
+				rechecked := false
+				if tableLock != nil {
+					rechecked = controlDependsOn(fn, in, func(v ssa.Value) bool {
+						nm, f, _, ok := loadedField(v)
+						if !ok || typeKey(nm) != "sys.CachedLocation" || f != "Location" {
+							return false
+						}
+						ld, ok := v.(ssa.Instruction)
+						return ok && instrDominates(tableLock, ld)
+					})
+				}
+				if rechecked {
+					r.ok("CACHE-EVICT", key, w.PosOf(in), "deletes only if the entry still has no location, read under the table lock")
+				} else {
+					r.violation("CACHE-EVICT", key, w.PosOf(in), "the clean-up after a failed open deletes the table entry on the strength of what it saw before it released the entry lock: a concurrent request may have loaded the location through the same entry since, and is evicted while it uses it")
+				}
+			})
+		}
+		if n == 0 {
+			r.exempt("CACHE-EVICT", "table=sys.CachedLocations.locs", "", "nothing deletes from the cache table: shape not recognised, not decided")
+		}
+	}
+}
